@@ -380,6 +380,14 @@ Definition finish_track (cfg : config) (tl : timeline) (id : nat) (stopped : boo
       if t_finished tr3 && t_rwd tr3 then remove_track tl3 id else tl3
   end.
 
+(* perform_event, action branch, "except StopIteration: self.event_stream = None; raise StopIteration()": a callback
+   that raises StopIteration ends its track for good - no further event is drawn from the stream *)
+Definition end_stream (tl : timeline) (id : nat) : timeline :=
+  match find_track id (tracks tl) with
+  | Some t => upd_track tl (set_stream t empty_stream)
+  | None => tl
+  end.
+
 (* one track's turn in the loop of Timeline.tick; Some res = the tick is aborted with that result *)
 Definition tick_one (cfg : config) (tl : timeline) (id : nat) : timeline * list call * option opres :=
   match find_track id (tracks tl) with
@@ -394,7 +402,8 @@ Definition tick_one (cfg : config) (tl : timeline) (id : nat) : timeline * list 
       | TCallback cb =>
           let '(rk, ops) := nth cb (cbs cfg) (CbNone, []) in
           let tl2 := exec_cb_ops cfg tl1 ops in
-          (finish_track cfg tl2 id (match rk with CbStop => cb_completes cfg tl1 ops | _ => false end), c, None)
+          let stop := match rk with CbStop => cb_completes cfg tl1 ops | _ => false end in
+          (finish_track cfg (if stop then end_stream tl2 id else tl2) id stop, c, None)
       | TRaise =>
           if ignore_exc cfg then (remove_track tl1 id, c, None) else (tl1, c, Some RException)
       | TOutOfFuel => (tl1, c, Some ROutOfFuel)
